@@ -413,7 +413,13 @@ fn handle(req: &Value) -> Value {
         },
         #[cfg(feature = "pt")]
         "build_typed" => {
-            let name = unhex(&req["name"]);
+            // the name that is current when build() runs: the constructor argument unless a later step replaces it
+            let mut name = unhex(&req["name"]);
+            for st in req["steps"].as_array().map(|v| v.as_slice()).unwrap_or(&[]) {
+                if st[0] == "with_name" || st[0] == "set_name" {
+                    name = unhex(&st[1]);
+                }
+            }
             let mut v = dispatch_kind(req, false);
             v["expect_lower"] = json!(hx(&name_lower(&name)));
             v["expect_pypi"] = json!(hx(&pypi_norm(&name)));
